@@ -81,7 +81,7 @@ Definition cst_init (n : Z) : cst :=
 Definition check_step (cf : config) (st : cst) (o : op) (b : obs) : option cst :=
   let n := cf_n cf in
   match o, b with
-  | OEdit e, ORep rep _ =>
+  | OEdit e, ORep rep _ _ =>
       let R' := rel_edit (cf_kind cf) n (c_R st) e in
       if report_ok n R' rep then Some {| c_R := R'; c_G := c_G st; c_F0 := c_F0 st |} else None
   | OCycle blk prims, OSec recs =>
